@@ -291,14 +291,14 @@ CONTRACTS = [
              refines=R + "ref_crc24_default", policy={"fake_ble:swap_bits": "ref:" + R + "ref_swap_bits", "fake_ble:reverse_bits": "ref:" + R + "ref_reverse_bits"},
              props=["C18", "C19"], timeout_ms=60000),
     Contract("C18.hop_channel", "fake_ble:FakeBLE.hop_channel", {"self": ble_schema()}, requires=[R + "ble_ok"],
-             refines=R + "ref_hop_channel", view=R + "view_ble", ensures=[("K", R + "ens_k")], policy=BPOL, props=["C18"]),
+             refines=R + "ref_hop_channel", view=R + "view_ble", ensures=[("K", R + "ens_k")], policy=BPOL, props=["C18", "C19"]),
     Contract("C18.channel.set", "fake_ble:FakeBLE.channel.setter", {"self": ble_schema(), "value": Int()}, requires=[R + "ble_ok"],
-             refines=R + "ref_ble_channel_set", view=R + "view_ble", ensures=[("K", R + "ens_k")], policy=BPOL, props=["C18"]),
+             refines=R + "ref_ble_channel_set", view=R + "view_ble", ensures=[("K", R + "ens_k")], policy=BPOL, props=["C18", "C19"]),
     Contract("C18.whiten", "fake_ble:FakeBLE.whiten", {"self": ble_schema(), "data": Bytes(0, 32)},
              requires=[R + "ble_ok"], refines=R + "ref_whiten", view=R + "view_ble", ensures=[("tuned_channel", R + "ens_whiten_channel")],
-             policy=BPOL, props=["C18"]),
+             policy=BPOL, props=["C18", "C19"]),
     Contract("C18.exit", "fake_ble:FakeBLE.__exit__", {"self": ble_schema()}, requires=[R + "ble_ok"],
-             refines=R + "ref_ble_exit", view=R + "view_ble", ensures=[("K", R + "ens_k")], policy=BPOL, props=["C18", "C09"]),
+             refines=R + "ref_ble_exit", view=R + "view_ble", ensures=[("K", R + "ens_k")], policy=BPOL, props=["C18", "C09", "C19"]),
     Contract("C18.len_available", "fake_ble:FakeBLE.len_available", {"self": ble_schema(name=NAMES), "hypothetical": BUF},
              refines=R + "ref_len_available", view=R + "view_ble", policy=BPOL, props=["C18"]),
 ] + [
@@ -360,4 +360,40 @@ CONTRACTS.append(
              {"self": Obj("fake_ble:FakeBLE", {}), "spi": Obj("spec.hw:SpiStub", {"hw": radio_schema()}), "csn": Const(None),
               "ce_pin": Obj("spec.hw:Pin", {"hw": radio_schema()}), "spi_frequency": Const(10000000)},
              requires=[R + "req_ble_init"], ensures=[("ble_config_and_K", R + "ens_ble_init")], raises=(), policy=BLE_INIT_POL,
-             props=["C18", "C09"]))
+             props=["C18", "C09", "C19"]))
+
+
+# ---- the radio is SHARED (C09): between an object's own `with` blocks another object re-tunes it.
+#      What the object itself must keep, whatever the registers hold, is its INTERNAL consistency
+#      K_int (whitening index <-> cached channel); __enter__ then re-establishes K from it.  A getter
+#      that "refreshes" the cached channel from a foreign register file breaks K_int silently (seed
+#      s68): the next `with` block tunes to the other object's frequency and whitens for its own.
+
+def k_int(self):
+    f = self._curr_freq
+    want = ite(f == 0, 2, ite(f == 1, 26, 80))
+    return 0 <= f and f <= 2 and self._channel == want
+
+
+def req_foreign(self):
+    from spec.c09 import shadows_wf
+    return shadows_wf(self) and k_int(self)
+
+
+def ens_channel_get_foreign(self, old_self, result, exc):
+    return (exc is None and result == self._spi.hw.reg[5] and k_int(self)
+            and self._curr_freq == old_self._curr_freq and self._channel == old_self._channel)
+
+
+def ens_enter_k(self, old_self, result, exc):
+    return exc is None and ble_ok(self) and self._curr_freq == old_self._curr_freq
+
+
+from spec.c09 import POL as ENTER_POL  # noqa: E402
+
+CONTRACTS += [
+    Contract("C18.channel.get.foreign_radio", "rf24:RF24.channel.getter", {"self": ble_schema()}, requires=[R + "req_foreign"],
+             ensures=[("K_int", R + "ens_channel_get_foreign")], raises=(), policy=BPOL, props=["C18", "C19", "C09"]),
+    Contract("C18.enter.foreign_radio", "rf24:RF24.__enter__", {"self": ble_schema()}, requires=[R + "req_foreign"],
+             ensures=[("K", R + "ens_enter_k")], raises=(), policy=ENTER_POL, props=["C18", "C19", "C09"]),
+]
